@@ -106,6 +106,18 @@ int main(int argc, char **argv)
         if (nonempty && !((wide)o2 == ilo && (wide)o2 + l2 == ihi && l2 > 0)) RP_FAIL("canonical range differs from the requested bytes within the body");
         RP_OK("canonize contract holds on this input");
     }
+    if (mode == "range64") {
+        int64_t a = c.num("a"), b = c.num("b"), cc = c.num("c"), d = c.num("d"), s, e;
+        w_isect64(a, b, cc, d, &s, &e);
+        if (s != (a > cc ? a : cc) || e != (b < d ? b : d)) RP_FAIL("intersection is not [max(starts), min(ends))");
+        int64_t p = c.num("p"), q = c.num("q");
+        if ((wide)q - p <= (wide)INT64_MAX) {
+            uint64_t z = w_size64(p, q);
+            printf("size([%ld,%ld)) = %lu\n", (long)p, (long)q, (unsigned long)z);
+            if ((wide)z != (q > p ? (wide)q - p : (wide)0)) RP_FAIL("size is not end - start");
+        }
+        RP_OK("Range<int64_t,uint64_t> lemmas hold");
+    }
     if (mode == "merge") {
         int64_t o1 = c.num("o1"), l1 = c.num("l1"), o2 = c.num("o2"), l2 = c.num("l2");
         int64_t a = o1, b = l1, cc = o2, d = l2;
